@@ -284,6 +284,8 @@ class C14(Prop):
                                     w(filler(1990, 3) + LF), w(filler(1990, 7) + LF), "@2 dump"])
         mk("react-echo-console-snooper", ["@2 connect console", "@2 snoop 1", "@2 react e,e", "@2 sendres 3,W", w(b"hello\n"),
                                           vw(b"v\n"), "wready"])
+        mk("react-destructed-object-commands", ["@2 snoop 1", "@2 react d2", w(b"x\n"), "@2 eflush", "@2 flushall", "@2 react e",
+                                                "@2 snoop 1", w(b"y\n"), "@2 " + w(b"z")])
         mk("react-tell-dead", ["@2 snoop 1", "@3 sendres P", "@3 " + w(b"x"), "@3 flush", "@2 react t3,d3,t3", w(b"a"), w(b"b"), w(b"c")])
         return B
 
